@@ -176,7 +176,11 @@ def run(ctx):
         t = cases.tree(tj)
         rec = {"id": "%s-%s-%d" % (tag, vendor, len(recs)), "vendor": vendor, "model": model, "formatter": type(fmt).__name__, "t": tj, "indent": vendor in INDENT_FAMILY}
         try:
-            text = fmt.join(t)
+            if unit is not None and len(recs) % 2:
+                from annet import gen as anngen
+                text = anngen.format_config_blocks(t, E.hwview(model, ""), unit)       # what `annet gen` prints for that box
+            else:
+                text = fmt.join(t)
             t2 = tabparser.parse_to_tree(text, fmt.split)
             text2 = fmt.join(t2)
             rec.update({"t2": cases.jtree(t2), "fixed": text2 == text, "lines": lex_text(text) if rec["indent"] else [], "text": text})
